@@ -42,6 +42,197 @@ class HashFn(Comp):
         return L
 
 
+# ---- property-level judgement of a driver answer (used by witness(): independent of the Coq model) ----
+import re as _re
+
+_NOREC = 4294967295
+
+
+def parse_dump(dump):
+    """'S8 U1 R1 F1 | 5[0,0]:0/5/0,... | free:1,2,>8' -> dict or None"""
+    m = _re.match(r"S(\d+) U(\d+) R(\d+) F(\d+) \|(.*)\| free:(.*)>(\d+)$", dump.strip())
+    if not m:
+        return None
+    size, used, rz, ff = (int(m.group(i)) for i in range(1, 5))
+    buckets = {}
+    for bm in _re.finditer(r"(\d+)\[(\d+),(\d+)\]:(\S*)", m.group(5)):
+        recs = []
+        for r in bm.group(4).split(","):
+            if not r:
+                continue
+            if r.startswith("!"):
+                recs.append((int(r[1:]), None, None))
+                continue
+            idx, h, v = r.split("/", 2)
+            recs.append((int(idx), int(h), v))
+        buckets[int(bm.group(1))] = (int(bm.group(2)), int(bm.group(3)), recs)
+    free = [int(x) for x in m.group(6).split(",") if x]
+    return {"size": size, "used": used, "rz": rz, "ff": ff, "buckets": buckets, "free": free, "free_end": int(m.group(7))}
+
+
+def arena_violation(d):
+    """the representation invariant Rep of HashTableP.v checked on a dump; returns a description or None"""
+    size = d["size"]
+    if size < 8 or size & (size - 1):
+        return "size %d is not a power of two >= 8" % size
+    seen = {}
+    n = 0
+    for b, (first, last, recs) in sorted(d["buckets"].items()):
+        idxs = [r[0] for r in recs]
+        if not recs:
+            if first != _NOREC or last != _NOREC:
+                return "bucket %d: empty chain but first/last = %d/%d" % (b, first, last)
+            continue
+        if first != idxs[0]:
+            return "bucket %d: first %d is not the chain head %d" % (b, first, idxs[0])
+        if last != idxs[-1]:
+            return "bucket %d: last %d is not the chain end %d" % (b, last, idxs[-1])
+        for idx, h, _v in recs:
+            if h is None or idx >= size:
+                return "bucket %d: record index %d outside the arena" % (b, idx)
+            if h & (size - 1) != b:
+                return "bucket %d: record %d has hash %d of bucket %d" % (b, idx, h, h & (size - 1))
+            if idx in seen:
+                return "record %d is used twice (%s and bucket %d)" % (idx, seen[idx], b)
+            seen[idx] = "bucket %d" % b
+            n += 1
+    for idx in d["free"]:
+        if idx in seen:
+            return "record %d is used twice (%s and the free list)" % (idx, seen[idx])
+        seen[idx] = "free list"
+    if d["used"] != n:
+        return "used = %d but %d records are chained" % (d["used"], n)
+    if len(seen) != size:
+        lost = sorted(set(range(size)) - set(seen))
+        return "record slots lost (in no chain and not free): %s" % lost[:8]
+    if d["free_end"] != size:
+        return "free list ends in %d, not in size" % d["free_end"]
+    if d["ff"] != (d["free"][0] if d["free"] else size):
+        return "first_free_rec %d is not the head of the free list" % d["ff"]
+    return None
+
+
+def ht_reference(ops):
+    """return codes of a script of checked operations (i / r / f) on a set of (hash, value); None when the
+    script holds other operations"""
+    s = set()
+    out = []
+    for o in ops:
+        k, hv = o[0], o[1:]
+        if k not in "irf":
+            return None
+        h, v = hv.split(":")
+        key = (int(h), int(v))
+        if k == "i":
+            out.append("%d=%s" % (4 if key in s else 0, v))
+            s.add(key)
+        elif k == "r":
+            out.append("0" if key in s else "5")
+            s.discard(key)
+        else:
+            out.append("0=%s" % v if key in s else "5")
+    return out, s
+
+
+def lyht_hash_py(b):
+    h = 0
+    for c in b:
+        h = (h + (c if c < 128 else c + 0xFFFFFF00)) & 0xFFFFFFFF
+        h = (h + (h << 10)) & 0xFFFFFFFF
+        h ^= h >> 6
+    h = (h + (h << 3)) & 0xFFFFFFFF
+    h ^= h >> 11
+    h = (h + (h << 15)) & 0xFFFFFFFF
+    return h
+
+
+def ht_witness(line, impl_out):
+    f = line.split("\t")
+    size, rz, ops = int(f[1]), int(f[2]), ([] if f[4] == "-" else f[4].split(","))
+    if " || " not in impl_out:
+        return None
+    outs, dump = impl_out.split(" || ", 1)
+    ref = ht_reference(ops)
+    lawful = size and not (size & (size - 1)) and rz == 1 and ref is not None
+    if dump == "ABORT" or impl_out.startswith("CRASH") or impl_out == "TIMEOUT":
+        if lawful:
+            return ("ht-assert", "a script of checked inserts/removes/finds with resizing enabled stops at an assertion "
+                                 "after %d operations" % (len(outs.split()) if outs else 0))
+        return None
+    d = parse_dump(dump)
+    if d is None:
+        return None
+    if "d" not in [o[0] for o in ops]:
+        v = arena_violation(d)
+        if v:
+            return ("ht-arena-invariant", v)
+    if lawful:
+        exp, s = ref
+        got = outs.split()
+        if got != exp:
+            k = next((i for i, (a, b) in enumerate(zip(got, exp)) if a != b), min(len(got), len(exp)))
+            return ("ht-multimap", "operation %d (%s) answers %s, a set of (hash, value) answers %s"
+                    % (k, ops[k] if k < len(ops) else "?", got[k] if k < len(got) else "-", exp[k] if k < len(exp) else "-"))
+        content = sorted((h, int(v)) for (_f, _l, recs) in d["buckets"].values() for (_i, h, v) in recs)
+        if content != sorted(s):
+            return ("ht-multimap", "final content %s differs from the set %s" % (content[:6], sorted(s)[:6]))
+    return None
+
+
+def dict_witness(line, impl_out):
+    f = line.split("\t")
+    ops = [] if f[2] == "-" else f[2].split(",")
+    if " || " not in impl_out:
+        return None
+    outs, dump = impl_out.split(" || ", 1)
+    if dump == "ABORT":
+        return ("dict-assert", "a dictionary script stops at an assertion of hash_table.c")
+    ref = {}
+    exp = []
+    for o in ops:
+        k, s = o[0], o[1:]
+        if k in "+=":
+            ref[s] = ref.get(s, 0) + 1
+            exp.append("0=" + s)
+        elif k == "-":
+            if ref.get(s, 0):
+                ref[s] -= 1
+                exp.append("0=-")
+            else:
+                exp.append("5=-")
+        elif k == "*":
+            if ref.get(s, 0):
+                ref[s] += 1
+                exp.append("0=" + s)
+            else:
+                exp.append("5=-")
+    got = outs.split()
+    if got != exp:
+        k = next((i for i, (a, b) in enumerate(zip(got, exp)) if a != b), min(len(got), len(exp)))
+        return ("dict-refcount", "operation %d (%s) answers %s; reference counting answers %s"
+                % (k, ops[k] if k < len(ops) else "?", got[k] if k < len(got) else "-", exp[k] if k < len(exp) else "-"))
+    d = parse_dump(dump)
+    if d is None:
+        return None
+    v = arena_violation(d)
+    if v:
+        return ("ht-arena-invariant", v)
+    held = {}
+    for (_f, _l, recs) in d["buckets"].values():
+        for (_i, h, val) in recs:
+            s, c = val.rsplit("*", 1)
+            if s in held:
+                return ("dict-refcount", "string %s is stored twice" % s)
+            held[s] = int(c)
+            if h != lyht_hash_py(bytes.fromhex(s) if s != "-" else b""):
+                return ("dict-refcount", "string %s stored under hash %d" % (s, h))
+    want = {s: c for s, c in ref.items() if c}
+    if held != want:
+        diff = [(s, held.get(s), want.get(s)) for s in sorted(set(held) | set(want)) if held.get(s) != want.get(s)]
+        return ("dict-refcount", "stored (string, refcount) differ from #acquired - #released: %s (string, stored, expected)" % diff[:4])
+    return None
+
+
 def _line(size, rz, vs, ops):
     return "ht\t%d\t%d\t%d\t%s" % (size, rz, vs, ",".join(ops) if ops else "-")
 
@@ -52,6 +243,11 @@ class HtScript(Comp):
     name = "ht"
     driver = "t_ht"
     slice = "ht"
+
+    def witness(self, line, model_out, impl_out):
+        """the property itself judged on the implementation's answer, independently of the Coq model: arena
+        invariant of the dumped table, multimap semantics of checked scripts, no assertion with resizing on"""
+        return ht_witness(line, impl_out)
 
     # ---- building blocks -------------------------------------------------------------------
     @staticmethod
@@ -187,11 +383,16 @@ DICT_POOL = [b"", b"a", b"b", b"ab", b"abc", b"abcd", b"ba", b"a" * 40, b"\x80",
 
 
 class DictScript(Comp):
-    """lydict_insert / lydict_remove / lydict_dup scripts on an empty dictionary: results, returned strings
+    """lydict_insert / lydict_insert_zc / lydict_remove / lydict_dup scripts on an empty dictionary: results, returned strings
     and the complete table (records with reference counts) vs Dict.v"""
     name = "dict"
     driver = "t_ht"
     slice = "ht"
+
+    def witness(self, line, model_out, impl_out):
+        """reference counting judged on the implementation's answer: every return value and the stored
+        (string, refcount) pairs against #acquired - #released, plus the arena invariant of the table"""
+        return dict_witness(line, impl_out)
 
     def script(self, rng, n, pool, hist):
         ops = []
@@ -204,6 +405,8 @@ class DictScript(Comp):
                 s = rng.choice(pool)
             if o == "+":
                 live.append(s)
+                if rng.random() < 0.3:
+                    o = "="        # lydict_insert_zc
             elif o == "-" and s in live:
                 live.remove(s)
             ops.append(o + hexs(s))
@@ -216,7 +419,7 @@ class DictScript(Comp):
     def gen(self, rng, tier, scale=1.0):
         L = ["dict\t0\t-", "dict\t8\t-"]
         # exhaustive short scripts over two strings
-        uni = [o + hexs(s) for o in "+-*" for s in (b"a", b"\xe9")]
+        uni = [o + hexs(s) for o in "+-*=" for s in (b"a", b"\xe9")]
         for n in range(1, 5 if tier == "thorough" else 4):
             for ops in itertools.product(uni, repeat=n):
                 L.append("dict\t8\t" + ",".join(ops))
@@ -853,7 +1056,7 @@ class Ownership:
     def gen(self, rng, tier, scale=1.0):
         L = [l for _, l in self.known()] + self.fixed()
         dg = _OwnDoc(rng)
-        for _ in range(self.n(tier, 700, 40000, scale)):
+        for _ in range(self.n(tier, 700, 28000, scale)):
             cmds = []
             nslots = rng.choice([2, 3, 3, 4])
             for s in range(nslots):
